@@ -418,7 +418,9 @@ _VM_REC = {
     r"^<cao_lang::prelude::Value as std::cmp::PartialEq>::eq$": 0,
     r"^<cao_lang::prelude::Value as std::cmp::PartialOrd>::partial_cmp$": 0,
     r"^<cao_lang::prelude::Value as std::hash::Hash>::hash::<.*>$": 0,
-    r"^std::ptr::drop_in_place::<cao_lang::prelude::ExecutionErrorPayload>$": 0,
+    # error payloads nest through TaskFailure { error: Box<payload> }: one level is enough
+    r"^std::ptr::drop_(in_place|glue)::<(std::boxed::Box<)?cao_lang::prelude::ExecutionErrorPayload>?>$": 1,
+    r"^std::ptr::drop_(in_place|glue)::<(std::boxed::Box<)?cao_lang::prelude::ExecutionError>?>$": 1,
     r"hash_map::CaoHashMap::<.*>::(grow|adjust_capacity)$": 0,
 }
 
@@ -446,6 +448,9 @@ def _vm(mod, name, tier="quick", dispatches=6, **kw):
     lim[r"SpecFill<cao_lang::prelude::Handle>>::spec_fill$#0"] = 18
     lim.update(kw.pop("limits", {}))
     kw.setdefault("stubbing", True)
+    # CBMC's array theory (uninterpreted functions + Ackermann constraints) runs out of memory on the
+    # interpreter's heap arrays; flattening them closes the same harnesses in 1-2 minutes
+    kw.setdefault("cbmc_args", ["--arrays-uf-never"])
     return H(mod, name, tier, limits=lim, steps=dispatches, **kw)
 
 
